@@ -104,7 +104,9 @@ def snapshot(sim, skip_callback=None):
             kw = {k: v for k, v in h.kwargs.items()}
             _add(sec, short("%s <- %s prio=%d kw=%s cond=%s block=%s" % (
                 event, cb_desc(h.callback), h.priority, canon(kw), canon(h.condition), canon(h.blocking_facility)), 400))
-    snap["queue_tasks"] = {"pending": len(m.events._queue_tasks)} if m.events._queue_tasks else {}
+    # dispatcher tasks of queue events that are still running (a finished task leaves the list one iteration later)
+    npend = sum(1 for t in m.events._queue_tasks if not t.done())
+    snap["queue_tasks"] = {"pending": npend} if npend else {}
 
     # 2. switch handlers (registered + armed timed handlers)
     sec = snap["switch_handlers"] = {}
